@@ -302,12 +302,22 @@ def _merge_objs(objs):
         keys = set()
         for _, ob in objs:
             keys.update(ob.d.keys())
+        opt = {}
         for k in keys:
             vals = [(g, ob.d[k]) for g, ob in objs if k in ob.d]
-            if len(vals) < len(objs):
-                raise Unsupported("dict key set differs across merged branches")
+            # presence of the key after the merge: present on a branch iff it is in that branch's dict (and, for a
+            # branch that already carries optional keys, its own presence guard holds)
+            pres = []
+            for g, ob in objs:
+                if k in ob.d:
+                    og = (getattr(ob, "opt", None) or {}).get(k)
+                    pres.append(g if og is None else z3.And(g, og))
+            if len(vals) < len(objs) or any((getattr(ob, "opt", None) or {}).get(k) is not None for _, ob in objs):
+                opt[k] = simp(z3.Or(*pres)) if pres else z3.BoolVal(False)
             first = vals[0][1]
             o.d[k] = first if all(same_value(first, v) for _, v in vals[1:]) else mk_union(vals)
+        if opt:
+            o.opt = opt         # a dict with optional keys (see type odict): key -> presence guard
     if o.kind == "dict" and any(ob.sym is not None for _, ob in objs):
         tmpl = [ob.sym for _, ob in objs if ob.sym is not None][0]
         for _, ob in objs:
